@@ -29,6 +29,7 @@ type Roles struct {
 
 	WatchEventT *types.Named // common.WatchEvent
 
+	SeqRegion    *fnRegion       // the sequencer goroutine's function and the same-package helpers it calls
 	Sink         *ssa.Function // stores a non-nil *WatchEvent into the slot array
 	SinkRevParam int           // signature index of the revision parameter of Sink
 	SinkValidPar int
@@ -123,8 +124,51 @@ func (p *Prog) roles() *Roles {
 	if len(sinks) != 1 {
 		brokenf("event sink role: expected exactly one function storing a *WatchEvent into an atomic.Value, found %d", len(sinks))
 	}
+	// The sequencer is a goroutine: the function started by a go statement whose body - or the same-package helpers it
+	// calls - loads and clears the event slots. (When the loop is one function this is that function.)
 	if len(seqs) != 1 {
 		brokenf("sequencer role: expected exactly one function loading and clearing *WatchEvent slots, found %d", len(seqs))
+	}
+	{
+		slotFn := seqs[0]
+		inPkg := func(g *ssa.Function) bool { return g.Pkg == slotFn.Pkg }
+		var roots []*ssa.Function
+		seenRoot := map[*ssa.Function]bool{}
+		for _, f := range p.AllFuncs {
+			for _, c := range callsIn(f) {
+				g, ok := c.(*ssa.Go)
+				if !ok {
+					continue
+				}
+				sc := g.Common().StaticCallee()
+				if sc == nil {
+					continue
+				}
+				root := unwrapSynthetic(sc)
+				if root.Pkg != slotFn.Pkg || seenRoot[root] {
+					continue
+				}
+				if root == slotFn {
+					seenRoot[root] = true
+					roots = append(roots, root)
+					continue
+				}
+				if len(enumerateChains(p, root, func(ins ssa.Instruction) bool {
+					ci, ok := ins.(ssa.CallInstruction)
+					return ok && ci.Common().StaticCallee() == slotFn
+				}, inPkg, 4)) > 0 {
+					seenRoot[root] = true
+					roots = append(roots, root)
+				}
+			}
+		}
+		if len(roots) != 1 {
+			brokenf("sequencer role: expected exactly one goroutine around the slot loop (%s), found %d", funcName(slotFn), len(roots))
+		}
+		seqs[0] = roots[0]
+		r.SeqRegion = &fnRegion{root: roots[0], descend: func(g *ssa.Function) bool {
+			return g.Pkg == slotFn.Pkg && g != sinks[0] && g.Synthetic == ""
+		}}
 	}
 	r.Sink, r.Sequencer = sinks[0], seqs[0]
 	r.SinkRevParam, r.SinkValidPar, r.SinkErrParam = -1, -1, -1
